@@ -50,9 +50,9 @@ type CV struct {
 
 // XV is a builtin exception value (class 异常).
 type XV struct {
-	Msg     string
+	Msg      string
 	MsgKnown bool // false for runtime faults: the message text is not specified
-	Code    int  // runtime-fault code (0 for thrown exceptions)
+	Code     int  // runtime-fault code (0 for thrown exceptions)
 }
 
 func NewDV() *DV { return &DV{M: map[string]V{}} }
